@@ -94,6 +94,18 @@ def render(spec, kw=None):
         return "!" + type(e).__name__
 
 
+def rerender(spec):
+    """the SAME statement object rendered by str(), then under foreign explicit conventions, then by str() again"""
+    try:
+        q = qf.build_query(spec)
+        a = str(q)
+        q.get_sql(quote_char="`", secondary_quote_char='"', alias_quote_char="`", as_keyword=True)
+        q.get_sql(quote_char=None)
+        return [a, str(q)]
+    except Exception as e:  # noqa
+        return ["!" + type(e).__name__] * 2
+
+
 # ----------------------------------------------------------------------------------------------
 # generation
 # ----------------------------------------------------------------------------------------------
@@ -977,6 +989,10 @@ def vendor_cases():
         out.append({"vendor": "clickhouse-functions", "cls": c})
     out.append({"vendor": "mysql-load", "cls": "MySQLQuery"})
     out.append({"vendor": "vertica-copy", "cls": "VerticaQuery"})
+    # ONE set of term / table objects embedded in statements of every class, rendered in varying orders (and pre-rendered
+    # with str()): rendering is a pure function of the statement and the class, so the text must equal that of fresh objects
+    for order in range(len(SHARED_ORDERS)):
+        out.append({"vendor": "shared-terms", "cls": "Query", "order": order})
     # every clause renderer (_*_sql) of QueryBuilder and of the dialect builders, under every class that has it
     for c in CLS_NAMES:
         out.append({"vendor": "clause-inventory", "cls": c})
@@ -1108,6 +1124,86 @@ def _cl_vertica(Q, t, reg):
     return Q.from_(t).select(t.field(reg("zc20", "ident")).as_(reg("za21", "alias"))).hint("lbl")
 
 
+# ----------------------------------------------------------------------------------------------
+# shared term objects across dialects
+# ----------------------------------------------------------------------------------------------
+def shared_objects():
+    """kind -> builder of ONE object (term, or table used as FROM item); dialect-keyed terms (Interval, Array) and every other
+    term family whose text depends on the class's quote characters / conventions"""
+    from pypika import Table, Field, Case, Tuple, JSON, Not, analytics as an, functions as fn, Parameter
+    from pypika.terms import Array, Interval, ValueWrapper, Function, Star, Negative
+    t = Table("st", schema="sh")
+    mk = {
+        "interval-days": lambda: Interval(days=1),
+        "interval-mixed": lambda: Interval(days=1, hours=2, minutes=3),
+        "interval-weeks": lambda: Interval(weeks=2),
+        "interval-quarters": lambda: Interval(quarters=1),
+        "interval-micro": lambda: Interval(microseconds=5),
+        "interval-negative": lambda: Interval(hours=-4),
+        "interval-in-function": lambda: fn.Coalesce(Interval(months=3), Interval(years=1)),
+        "interval-arith": lambda: Field("d", table=t) + Interval(days=7),
+        "array": lambda: Array(Field("a", table=t), "s", 1),
+        "array-empty": lambda: Array(),
+        "array-in-function": lambda: Function("F", Array(1, 2), Array()),
+        "field": lambda: Field("a", table=t).as_("fa"),
+        "star": lambda: Star(t),
+        "string": lambda: ValueWrapper("it's").as_("sv"),
+        "boolean": lambda: ValueWrapper(True),
+        "json": lambda: JSON({"k": "v"}).get_json_value("k"),
+        "cast": lambda: fn.Cast(Field("a", table=t), "VARCHAR").as_("ca"),
+        "function": lambda: fn.Concat(Field("a", table=t), "x").as_("fc"),
+        "case": lambda: Case().when(Field("a", table=t) == "x", Field("b", table=t)).else_("y").as_("cs"),
+        "tuple": lambda: Tuple(Field("a", table=t), "x"),
+        "criterion": lambda: ((Field("a", table=t) == "x") & Field("b", table=t).isin(["p", "q"])).as_("cr"),
+        "not-between": lambda: Not(Field("a", table=t).between("l", "h")),
+        "negative": lambda: Negative(Field("a", table=t) + 1),
+        "analytic": lambda: an.Sum(Field("a", table=t)).over(Field("b", table=t)).orderby(Field("c", table=t)).as_("an"),
+        "parameter": lambda: Parameter("%s"),
+    }
+    return t, mk
+
+
+# orders in which the ten classes render the shared objects; "str" = Term.__str__ / Interval.__str__ before any statement
+SHARED_ORDERS = [
+    ["str"] + CLS_NAMES,
+    list(reversed(CLS_NAMES)),
+    ["MySQLQuery", "PostgreSQLQuery", "OracleQuery", "Query", "SnowflakeQuery", "RedshiftQuery", "str", "VerticaQuery", "MSSQLQuery",
+     "ClickHouseQuery", "SQLLiteQuery", "MySQLQuery", "PostgreSQLQuery"],
+    ["PostgreSQLQuery", "MySQLQuery", "str", "OracleQuery", "RedshiftQuery", "SnowflakeQuery", "Query"],
+]
+
+
+def run_shared(order):
+    from pypika import Table, Field
+    t, mk = shared_objects()
+    seq = SHARED_ORDERS[order]
+    rows = []
+    for kind, make in mk.items():
+        obj = make()                                    # ONE object for the whole sequence
+        tbl = Table("st", schema="sh")                  # ... and one table object
+        first = None
+        for step in seq:
+            try:
+                if step == "str":
+                    str(obj)
+                    continue
+                Q = qclass(step)
+                in_where = kind.startswith("interval") or kind in ("field", "function", "cast")
+
+                def stmt(o, tb):
+                    q = Q.from_(tb).select(o)
+                    if in_where:        # also in WHERE, and inside a sub-query of another class
+                        q = q.where(Field("w", table=tb) > o).where(Field("v", table=tb).isin(qclass("Query").from_(tb).select(o)))
+                    return str(q)
+                shared = stmt(obj, tbl)
+                fresh = stmt(make(), Table("st", schema="sh"))
+            except Exception as e:  # noqa
+                shared, fresh = "!" + type(e).__name__, "!reference"
+            rows.append([kind, step, first or step, shared, fresh])
+            first = first or step
+    return {"text": "", "meta": {}, "rows": rows}
+
+
 # label -> (builder, the _*_sql methods it exercises, classes it applies to (None = all ten))
 CLAUSES = {
     "select": (_cl_select, {"_select_sql", "_distinct_sql", "_from_sql", "_where_sql", "_group_sql", "_having_sql", "_orderby_sql",
@@ -1164,6 +1260,8 @@ def run_vendor(case):
         meta[name] = (role, kind, inner or case["cls"], inner or case["cls"], inner or case["cls"])
         return name
     t = Table(reg("zt1", "ident"))
+    if v == "shared-terms":
+        return run_shared(case["order"])
     if v == "clause-inventory":
         own, other = clause_inventory(case["cls"])
         covered = set()
@@ -1249,6 +1347,15 @@ def run_vendor(case):
 
 def vendor_oracle(case, outcome):
     cls, v = case["cls"], case["vendor"]
+    if v == "shared-terms":
+        out, seen = [], set()
+        for kind, step, first, shared, fresh in outcome.get("rows", []):
+            if shared != fresh and (kind, step) not in seen:
+                seen.add((kind, step))
+                out.append({"signature": ["C07", step, first, "vendor:shared-terms", kind],
+                            "what": "a %s object that was rendered before (first under %s) renders under %s as %r, a fresh one as %r: "
+                                    "the rendering leaks state from an earlier dialect context" % (kind, first, step, shared, fresh)})
+        return out
     if v == "clause-inventory":
         out = []
         for m in outcome.get("unknown", []):
@@ -1328,6 +1435,8 @@ def run_impl(case):
     spec = relabel_spec(case["spec"], case.get("relabel"))
     kw = case.get("kw")
     out = {"text": render(spec, kw)}
+    if kw is None:
+        out["rerender"] = rerender(spec)
     # oracle observations (independent of the model): the same specification with sentinel names
     try:
         sspec, meta = sentinelize(spec)
@@ -1364,9 +1473,15 @@ def oracle(case, outcome):
         return []
     meta = {k: tuple(v) for k, v in outcome["meta"].items()}
     spec = relabel_spec(case["spec"], case.get("relabel"))
+    rr = outcome.get("rerender")
+    pre = []
+    if rr and (rr[0] != rr[1] or rr[0] != outcome["text"]):
+        pre.append({"signature": ["C07", top_cls_name(spec), "-", "re-render", "text-changed"],
+                    "what": "the same statement object renders differently after it was rendered under other conventions: %r then %r (fresh: %r)"
+                            % (rr[0][:300], rr[1][:300], outcome["text"][:300])})
     outer = top_cls_name(spec)
     kw = case.get("kw")
-    out = []
+    out = list(pre)
     if kw is None:
         out += sentinel_report(outcome["sent_text"], meta, class_conv(outer), outer)
     else:
